@@ -1005,12 +1005,10 @@ pub fn oracle_td(ops: &[String], ans: &[String], prop: &str) -> Fails {
                     if !(v >= -ctol && v <= 1.0 + ctol) {
                         fails.push((i, format!("cdf({}) = {} outside [0,1]", x, v)));
                     }
-                    if x < lo - tol && v != 0.0 {
+                    if x < lo && v != 0.0 {
                         fails.push((i, format!("cdf({}) = {} below min {}", x, v, lo)));
                     }
-                    // at x = max itself a centroid mean may sit an ulp above max (sum/count rounding),
-                    // which the statement's "few ulps of the data range" allowance covers
-                    if x >= hi + tol && (v - 1.0).abs() > ctol {
+                    if x >= hi && (v - 1.0).abs() > ctol {
                         fails.push((i, format!("cdf({}) = {} at/above max {}", x, v, hi)));
                     }
                     let g = cgrid.entry(id).or_default();
@@ -1070,6 +1068,117 @@ pub fn oracle_c20(ops: &[String], ans: &[String]) -> Fails {
                 }
             }
             _ => {}
+        }
+    }
+    fails
+}
+
+// ---------------------------------------------------------------------------------------------
+// C19: is_empty() is true exactly when nothing has been added since creation or the last clear
+pub fn oracle_c19_empty(ops: &[String], ans: &[String]) -> Fails {
+    let mut fails = vec![];
+    // instance -> Some(has content) ; None = unknown (e.g. after union/merge/clone of unknown)
+    let mut state: HashMap<u64, Option<bool>> = HashMap::new();
+    let mut bloom_k0: BTreeSet<u64> = BTreeSet::new();
+    for (i, o, a) in expand(ops, ans) {
+        let t = toks(&o);
+        if t.len() < 2 {
+            continue;
+        }
+        let Some((st, verb)) = t[0].split_once('.') else { continue };
+        if !["bloom", "cms", "hll", "qf", "cuckoo", "res", "heap", "td", "set"].contains(&st) {
+            continue;
+        }
+        let id = pu(t[1]);
+        match verb {
+            "new" | "neww" | "newe" | "props" | "with" => {
+                if a.starts_with("ok") && verb != "with" {
+                    state.insert(id, Some(false));
+                    if st == "bloom" && verb == "new" && pu(t[3]) == 0 {
+                        bloom_k0.insert(id);
+                    } else {
+                        bloom_k0.remove(&id);
+                    }
+                } else {
+                    state.remove(&id);
+                }
+            }
+            "clear" => {
+                if state.contains_key(&id) {
+                    state.insert(id, Some(false));
+                }
+            }
+            "clone" => {
+                let v = state.get(&id).cloned();
+                let j = pu(t[2]);
+                match v {
+                    Some(x) => {
+                        state.insert(j, x);
+                    }
+                    None => {
+                        state.remove(&j);
+                    }
+                }
+            }
+            "union" | "merge" => {
+                if a == "ok" {
+                    let other = state.get(&pu(t[2])).cloned().flatten();
+                    let me = state.get(&id).cloned().flatten();
+                    let v = match (me, other) {
+                        (Some(x), Some(y)) => Some(x || y),
+                        _ => None,
+                    };
+                    if state.contains_key(&id) {
+                        state.insert(id, v);
+                    }
+                } else if a == "panic" {
+                    state.remove(&id);
+                }
+            }
+            "insert" | "add" | "addh" | "addn" | "insertw" | "addmany" => {
+                let added = match (st, verb) {
+                    ("qf", _) | ("cuckoo", _) => a == "true" || a == "false",
+                    ("cms", "addn") => a != "panic" && a != "poisoned" && pu(t[3]) > 0,
+                    ("td", "insertw") => a == "ok" && pf(t[3]) > 0.0,
+                    ("hll", "addmany") => a == "ok" && pu(t[3]) > 0,
+                    ("bloom", _) => !bloom_k0.contains(&id) && (a == "true" || a == "false"),
+                    _ => a != "panic" && a != "poisoned" && a != "full",
+                };
+                if a == "panic" || a == "poisoned" {
+                    state.remove(&id);
+                } else if added && state.contains_key(&id) {
+                    state.insert(id, Some(true));
+                }
+            }
+            "delete" => {
+                if a == "true" && state.contains_key(&id) {
+                    state.insert(id, None); // may or may not have become empty
+                }
+            }
+            "empty" => {
+                if let Some(Some(has)) = state.get(&id) {
+                    if (a == "true") == *has {
+                        fails.push((i, format!("`{}` answered {} although {} since creation / the last clear", o, a, if *has { "something was added" } else { "nothing was added" })));
+                    }
+                }
+            }
+            _ => {}
+        }
+    }
+    fails
+}
+
+// C03 (trace part): count() returns normally for any register contents
+pub fn oracle_c03(ops: &[String], ans: &[String]) -> Fails {
+    let mut fails = vec![];
+    let mut prev_panic = false;
+    for (i, o, a) in expand(ops, ans) {
+        if o.starts_with("hll.count") && a == "panic" && !prev_panic {
+            fails.push((i, "count() panicked on a valid sketch".into()));
+            prev_panic = true;
+        }
+        if o.starts_with("case ") {
+            prev_panic = false;
         }
     }
     fails
